@@ -75,6 +75,11 @@ type Proc struct {
 	Logic     string                      // SMT-LIB logic ("" = ALL)
 	NoHavoc   map[string]bool             // cells never havocked at cut points (inputs assigned once at entry)
 	Props     []string
+	// LemmaLine: prelude line -> lemma name (for lines that are lemma axioms). LemmaFor: lemma name -> clause
+	// labels whose obligations may use it (nil = all). A lemma irrelevant to an obligation only adds
+	// instantiation work, and made some obligations depend on the solver seed.
+	LemmaLine map[string]string
+	LemmaFor  map[string]map[string]bool
 }
 
 func (p *Proc) NewBlock(label string) *Block {
@@ -205,6 +210,11 @@ func (o *Obligation) Query(models bool) string {
 			switch si.kind[i] {
 			case 'p':
 				keep[i] = true
+				if ln, ok := o.gen.p.LemmaLine[lines[i]]; ok {
+					if labels := o.gen.p.LemmaFor[ln]; labels != nil && !labels[clauseLabel(o.Name)] {
+						keep[i] = false
+					}
+				}
 			case 'a':
 				// a guarded fact matters only if its block lies on a path to the obligation
 				if lb := o.gen.lineBlk[i]; lb == -1 || lb == o.ctx || anc[lb] {
@@ -271,6 +281,17 @@ func (o *Obligation) Query(models bool) string {
 		sb.WriteString("(get-model)\n")
 	}
 	return sb.String()
+}
+
+// clauseLabel: "pkg.F/kind/.../label#k" -> "label"
+func clauseLabel(name string) string {
+	if i := strings.LastIndex(name, "/"); i >= 0 {
+		name = name[i+1:]
+	}
+	if i := strings.Index(name, "#"); i >= 0 {
+		name = name[:i]
+	}
+	return name
 }
 
 type vcState map[string]Expr
